@@ -270,13 +270,39 @@ def t11_base128(run, fx, floors):
     # the leading-zero test is about the FIRST byte only: the comparison with 0x80 is dominated by the true side of `i == 0`
     import guards
     conds = guards.branch_conditions(b, prov)
-    first = [tb for tb, fb_, op, x, y, sw in conds if op == "Eq" and tb is not None and any(
-        sym.strip(z)[0] == "c" and sym.strip(z)[1] == 0 for z in (x, y)) and not any(
-        sym.strip(z)[0] == "c" and sym.strip(z)[1] == 0x80 for z in (x, y))]
-    lead = [sw for tb, fb_, op, x, y, sw in conds if op in ("Eq", "Ne") and any(sym.strip(z)[0] == "c" and sym.strip(z)[1] == 0x80 for z in (x, y))
-            and not any(sym.strip(z)[0] == "bin" for z in (x, y))]
-    if lead and not all(any(b.dominates(f, sw) for f in first) for sw in lead):
+    def is_k(z, k):
+        z = sym.strip(z)
+        return z[0] == "c" and z[1] == k
+
+    def land(blk):
+        seen = set()
+        while blk is not None and blk not in seen and not b.stmts(blk) and b.term(blk)["k"] == "goto":
+            seen.add(blk)
+            blk = b.term(blk)["target"]
+        return blk
+
+    # (true block, false block, switch block) of the `i == 0` tests and of the `byte == 0x80` tests, in either polarity
+    def tests(pred):
+        out = []
+        for tb, fb_, op, x, y, sw in conds:
+            if op in ("Eq", "Ne") and pred(x, y):
+                out.append((tb, fb_, sw) if op == "Eq" else (fb_, tb, sw))
+        return out
+    first = tests(lambda x, y: (is_k(x, 0) or is_k(y, 0)) and not (is_k(x, 0x80) or is_k(y, 0x80)))
+    lead = tests(lambda x, y: (is_k(x, 0x80) or is_k(y, 0x80)) and not any(sym.strip(z)[0] == "bin" for z in (x, y)))
+    for ltb, lfb, lsw in lead:
+        # `i == 0 && byte == 0x80`: the byte is only looked at for the first byte
+        if any(ftb is not None and b.dominates(ftb, lsw) for ftb, ffb, fsw in first):
+            continue
+        # `byte == 0x80 && i == 0`: the first-byte test follows at once, and "not first" continues where "not 0x80" continues
+        def other(sw, blk):
+            rest = [x for x in b.succs(sw) if x != blk and b.term(x)["k"] != "unreachable"]
+            return rest[0] if len(rest) == 1 else None
+        if any(ltb is not None and ltb == fsw and ftb is not None and other(fsw, ftb) is not None and other(lsw, ltb) is not None
+               and land(other(fsw, ftb)) == land(other(lsw, ltb)) for ftb, ffb, fsw in first):
+            continue
         probs.append("the comparison of a byte with 0x80 is not restricted to the first byte (i == 0): a canonical encoding whose middle group is zero, e.g. 81 80 00, is rejected")
+        break
     if probs:
         run.fail("T11-B128", "U32Base128:constants", "; ".join(probs), site)
     else:
@@ -370,9 +396,21 @@ def t11_lsb(run, fx):
                     terms.append(sym.strip(reach.def_term(b, prov, d)))
             else:
                 terms.append(t)
+            def from_records(t, depth=0):
+                """the value is computed from glyf.records(), directly or inside a private helper of the module (`Self::x_mins(glyf)`)"""
+                for x in sym.walk(t):
+                    if x[0] != "call":
+                        continue
+                    c = x[4] or x[1] or ""
+                    if c.endswith("::records"):
+                        return True
+                    hb = fx.body(x[1]) if (x[1] or "").startswith("woff2::") and depth < 2 else None
+                    if hb is not None and hb.kind != "Closure" and from_records(sym.Prov(hb).local(0), depth + 1):
+                        return True
+                return False
+
             for t in terms:
-                calls = [(x[4] or x[1] or "") for x in sym.walk(t) if x[0] == "call"]
-                if not any(c.endswith("GlyfTable::<'a>::records") or c.endswith("::records") for c in calls):
+                if not from_records(t):
                     continue      # the arm that reads the array from the stream
                 n += 1
                 skips = [x for x in sym.walk(t) if x[0] == "call" and (x[4] or x[1] or "").endswith("Iterator::skip")]
